@@ -346,7 +346,8 @@ def obligations(tier: str) -> List[Ob]:
            bound='seeded: oracle uses >=', timeout=120, expect=ob.REFUTE),
     ]
     sites = list(SITES)
-    quick_pl = (PLACEMENTS.index('absent'), PLACEMENTS.index('just-before'), PLACEMENTS.index('before-then-none'))
+    # (round 7: every placement in the quick tier too - a kernel this cheap needs no smaller quick tier)
+    quick_pl = tuple(range(len(PLACEMENTS)))
     for s in sites:
         groups = [quick_pl] if tier == 'quick' else [(i,) for i in range(len(PLACEMENTS))]
         tmax = 99 if tier == 'quick' else 9999
